@@ -10,8 +10,8 @@
    The complement ("known bad") is explicit: [safe] (operator instances, Model/C01Safe.v) and [pos_ok] / [clean]
    (a None value tested for truth below a `not`); every disjunct has a refutation in Findings/C01.v / Findings/C02.v. *)
 Require Import PonyV.Base.PyBase PonyV.Model.C01Expr PonyV.Model.C01Sql PonyV.Model.C01Translate PonyV.Model.C01Safe
-               PonyV.Model.C01Eqb PonyV.Model.C01Query PonyV.Model.C01Like PonyV.Model.C01LikeEqb PonyV.Model.C01Join
-               PonyV.Proofs.C01Ref PonyV.Proofs.C01Sound PonyV.Proofs.C01Rows PonyV.Proofs.C01Like PonyV.Proofs.C01Join.
+               PonyV.Model.C01Eqb PonyV.Model.C01Query PonyV.Model.C01Like PonyV.Model.C01LikeEqb PonyV.Model.C01Join PonyV.Model.C01Coll
+               PonyV.Proofs.C01Ref PonyV.Proofs.C01Sound PonyV.Proofs.C01Rows PonyV.Proofs.C01Like PonyV.Proofs.C01Join PonyV.Proofs.C01Coll.
 
 (* WHERE keeps exactly the rows the Python condition keeps *)
 Theorem C01_filter_except_known : forall d, modelled d = true ->
@@ -140,6 +140,55 @@ Example C01_join_nonvacuous :
                       sql_join_rows DSqlite JLeft 2 false c q (fun _ => PNone) db = [IntV 7]
   | _, _ => False
   end /\ py_join_rows false filt proj (fun _ => PNone) db = [PInt 7].
+Proof. vm_compute. repeat split; reflexivity. Qed.
+
+(* ---------------------------------------------------------------------------------------------------------------
+   Conditions over a to-many collection (Model/C01Coll.v): queries over G whose `if` part is a conjunction of atoms about
+   g.members = Set(P) - exists(m for m in g.members if c) / g.members and their negations (EXISTS / NOT EXISTS), v in /
+   not in (m.a for m in g.members if c) and v in / not in g.members.a (IN / NOT IN subqueries with the translator's
+   IS NOT NULL checks), not (v in (...)) (NOT IN without the check), scalar conditions mentioning
+   count(m for m in g.members if c) (SELECT COUNT(DISTINCT m.id) subquery), and plain scalar conditions over g.
+   [xtruth] is the relational meaning of the emitted subquery shape, [holds] the Python meaning of the atom over the
+   object graph: None members of the collection never match, a None left operand makes the comparisons unknown.
+   Domain: the inner / outer scalar expressions are in the domain of the expression theorems on the rows they are
+   evaluated on ([atom_dom]); known bad: `not (v in (...))` over a collection that holds a None (finding
+   not-over-in-collection-lacks-null-check). *)
+Theorem C01_collection_atom_except_known : forall d, modelled d = true ->
+  forall params db, pk_ok (tP db) = true ->
+  forall g x c, atom_typed x = true -> atom_dom d params db g x -> tr_atom d x = Some c ->
+  xtruth d params db g c = holds params db g x.
+Proof. exact atom_sound. Qed.
+Print Assumptions C01_collection_atom_except_known.
+
+(* whole queries: select(proj for g in G if atom1 and ... and atomn) returns the Python comprehension over the object graph *)
+Theorem C01_collection_rows_except_known : forall d, modelled d = true ->
+  forall params db, pk_ok (tP db) = true ->
+  forall distinct atoms proj vt xs q,
+  forallb atom_typed atoms = true -> ty_of proj = Some (TV vt) ->
+  tr_atoms d atoms = Some xs -> tr_project d proj = Some q ->
+  Forall (group_ok d params db atoms proj) (tG db) ->
+  sql_coll_rows d params db distinct xs q = map (enc d) (py_coll_rows params db distinct atoms proj) /\
+  map (dec (TV vt)) (sql_coll_rows d params db distinct xs q) = py_coll_rows params db distinct atoms proj.
+Proof. exact coll_rows. Qed.
+Print Assumptions C01_collection_rows_except_known.
+
+(* non-vacuity: exists with a correlated condition, `not in` over a collection that holds a None, and a count - on a
+   database where one group satisfies all three and the other none *)
+Example C01_collection_nonvacuous :
+  let a := mkattr 1 TInt true in let number := mkattr 11 TInt false in let level := mkattr 14 TInt true in
+  let cnt := mkattr 30 TInt false in
+  let atoms := [AExists false (Some (ECmp CGt (EAttr a) (EAttr level)));
+                AIn true false (EAttr number) a (SGen None);
+                ACount None (ECmp CGt (EAttr cnt) (EInt 1))] in
+  let proj := EAttr (mkattr 10 TInt false) in
+  let mk (id : Z) (av grp : pyv) := row_of [(0, PInt id); (1, av); (8, grp); (3, PInt 0); (5, PStr [97%Z]); (7, PBool true)]%nat in
+  let db := mkjdb [mk 1 (PInt 5) (PInt 1); mk 2 PNone (PInt 1); mk 3 (PInt 0) (PInt 2)]
+                  [row_of [(0, PInt 1); (1, PInt 2); (4, PInt 1)]%nat; row_of [(0, PInt 2); (1, PInt 0)]%nat] [] in
+  pk_ok (tP db) = true /\ forallb atom_typed atoms = true /\
+  match tr_atoms DSqlite atoms, tr_project DSqlite proj with
+  | Some xs, Some q => sql_coll_rows DSqlite (fun _ => PNone) db false xs q = [IntV 1]
+  | _, _ => False
+  end /\ py_coll_rows (fun _ => PNone) db false atoms proj = [PInt 1].
 Proof. vm_compute. repeat split; reflexivity. Qed.
 
 (* non-vacuity: a nested filter with a None attribute, a negative parameter and a floor division satisfies every
